@@ -1166,7 +1166,18 @@ def _run(ctx, cfg, n_cases, pool, res):
             else:
                 res["violations"].append({"rule": rule, "msg": v["msg"], "replay_obj": _replay_obj(prop, r, v, {"occurrences": hist.get(rule)})})
     # invalid programs of the valid family: the validator wrongly rejects (C11's business) - for scheduling
-    # properties they are simply not schedulable; count them
+    # properties they are simply not schedulable; count them.  An EXCEPTION out of the constructor is no rejection:
+    # the generated program (which contains the constructs of this property) cannot be scheduled at all
+    crashed = [r for r in results if r.get("ctor_exc")]
+    if crashed and "construction_raises" not in seen_rules:
+        seen_rules.add("construction_raises")
+        r0 = min(crashed, key=lambda r: len(r["case"].get("text", "")))
+        msg = "Scheduler(...) raised %s for a generated well-formed program (%d of %d programs): %s" % (
+            r0["ctor_exc"], len(crashed), len(results), (r0.get("ctor_out") or "")[:160])
+        res["violations"].append({"rule": "construction_raises", "msg": msg,
+                                  "replay_obj": {"property": prop, "family": "sched", "rule": "construction_raises", "message": msg,
+                                                 "text": r0["case"].get("text", ""), "case": {k: v for k, v in r0["case"].items() if k != "prog"},
+                                                 "how": "construct pfdl_scheduler.scheduler.Scheduler(text)"}})
     # crashes -----------------------------------------------------------------------------------
     # variants (C18) -------------------------------------------------------------------------------
     nvar = 0
